@@ -26,7 +26,7 @@ pub fn pool_cfg() -> AlphaCfg {
 
 pub fn scenarios(thorough: bool) -> Vec<Scenario> {
     let mut v = vec![];
-    v.push(sc("custom02-pools", NetID::Custom02, 0, pool_cfg(), if thorough { 9 } else { 7 }));
+    v.push(sc("custom02-pools", NetID::Custom02, 0, pool_cfg(), if thorough { 8 } else { 6 }));
     let mut base = AlphaCfg::base();
     base.max_txs_per_block = 2;
     v.push(sc("custom02-utxo", NetID::Custom02, 0, base.clone(), if thorough { 6 } else { 5 }));
@@ -51,6 +51,8 @@ pub fn run(run: &Run) {
         let st = run_scenario(run, &sc, 2_000_000);
         println!("  scenario {}: depth {} states {} transitions {}", sc.name, st.depth_completed, st.states, st.transitions);
     }
+    // the proof-of-work issuance path: real MelPoW mints around the reward bound, before and after a speed record (shared with C18)
+    crate::props::c18::run_world(run, NetID::Custom02, &[1, 2], &[(8, false), (16, false), (14, true)], false);
     run.sample(json!({"path": ["genesis[Custom02]", "open", "swap[MEL/SYM:canonical](MEL coin)", "seal(None)"], "oracle": "for every denomination: coins + pool reserves (+ fee pool + tips for MEL) after <= before + issuance allowed by the statement"}));
     run.assume("supply is computed from the raw coin and pool trees of the real state; every pool tree entry must be a pool some transaction named");
     run.assume("peg and subsidy allowances are computed by the reference transcription of the stated formulas (refstf.rs)");
